@@ -40,6 +40,14 @@ Definition gzip_filter (t : list (bytes * bytes)) : filter :=
 Definition registry_of (t : list (bytes * bytes)) : registry :=
   [xor_filter; rev_filter; lenp_filter; md5_filter md5 "m"%byte; gzip_filter t].
 
+(* xfer.SizeLimit (0 = none): the gzip filter refuses a payload that inflates beyond it
+   (xfer/gzip/gzip.go OnUnpack after the C06 repair) - refuses, never truncates *)
+Definition gzip_filter_lim (lim : N) (t : list (bytes * bytes)) : filter :=
+  limit_filter lim (gzip_filter t).
+
+Definition registry_lim (lim : N) (t : list (bytes * bytes)) : registry :=
+  [xor_filter; rev_filter; lenp_filter; md5_filter md5 "m"%byte; gzip_filter_lim lim t].
+
 Definition err_code (e : option append_err) : N :=
   match e with None => 0 | Some (EUnknownId _) => 1 | Some EPipeTooLong => 2 end.
 
@@ -57,8 +65,35 @@ Fixpoint corrupts_of (l : list val) : option (list (nat * byte)) :=
   | _ => None
   end.
 
+(* seq mode: (sseq sFAMILY ((xIDS nCLASS) ...)) -> ((xSERVER_IDS xREPLY_IDS nSTATUS) ...):
+   a sequence of calls with varying pipes on ONE real connection of protocol FAMILY; CLASS
+   0 = ok, 1 = handler status 777, 2 = unknown route 404 *)
+Fixpoint seq_calls (l : list val) : option (list (bytes * N)) :=
+  match l with
+  | [] => Some []
+  | VL [VB ids; VN c] :: r => option_map (cons (ids, c)) (seq_calls r)
+  | _ => None
+  end.
+
+Definition seq_status (c : N) : N := match c with 0 => 0 | 1 => 777 | _ => 404 end%N.
+
+(* the harness registers the repository's gzip filter under id 0xF0 as well (the only filter
+   httproto carries); only its id matters to [exchange] *)
+Definition gzip_real_id_filter : filter := mkFilter (n2b 240) (fun d => Some d) (fun d => Some d).
+
+Definition run_seq (calls : list (bytes * N)) : val :=
+  let reg := registry_of [] ++ [gzip_real_id_filter] in
+  VL (map (fun '(c, o) =>
+             match o with
+             | Some (srv, rep) => VL [VB srv; VB rep; VN (seq_status (snd c))]
+             | None => vsym "refused"
+             end)
+          (combine calls (conn_exchange reg (map (fun c => (fst c, [])) calls)))).
+
 Definition run (inp : val) : option val :=
   match inp with
+  | VL [VS tag; VS _; VL calls] =>
+      if bytes_eqb tag (str "seq") then option_map run_seq (seq_calls calls) else None
   | VL [VS _; VB req; VB added] =>
       (* live mode: the pipe ids on the reply frame for a request with pipe [req] whose
          handler appended [added] *)
@@ -67,10 +102,10 @@ Definition run (inp : val) : option val :=
       | (p, None) => Some (VL [VB (pipe_ids (reply_pipe reg p added))])
       | _ => None
       end
-  | VL [VB ids; VB payload; VL gz; VL cor] =>
+  | VL [VB ids; VB payload; VL gz; VL cor; VN lim] =>
       match pairs_of gz, corrupts_of cor with
       | Some t, Some cs =>
-          let reg := registry_of t in
+          let reg := registry_lim lim t in
           let '(p, e) := pipe_append reg [] ids in
           let packed := match e with None => pipe_pack p payload | Some _ => None end in
           let unpacked := match packed with Some y => pipe_unpack p y | None => None end in
